@@ -1,12 +1,16 @@
 package dbp
 
 import (
-	"sort"
 	"bytes"
 	"fmt"
+	"html"
+	"net/http/httptest"
 	"os"
 	"path/filepath"
+	"regexp"
 	"runtime"
+	"sort"
+	"strconv"
 	"strings"
 	"sync"
 	"sync/atomic"
@@ -37,6 +41,9 @@ type ConcOp struct {
 	// Second: ... by the SECOND restricted caller (another node, LinCase.Rules2) instead of the first
 	Second bool `json:"second,omitempty"`
 	Denied bool `json:"-"`
+	// DiskDown: the call is made while the state directory is unavailable (set by the runner): a call
+	// that would have to write fails and changes nothing - and nobody else ever sees it half done
+	DiskDown bool `json:"-"`
 }
 
 type LinCase struct {
@@ -46,6 +53,7 @@ type LinCase struct {
 	AuditYield  int          `json:"audit_yield"`             // the audit device yields the processor this many times per write/sync (a slow device)
 	Rules       []model.Rule `json:"rules,omitempty"`         // grant of the restricted caller
 	ReadDelayUs int          `json:"read_delay_us,omitempty"` // the audit device takes this much longer over records of read accesses
+	DiskDown    bool         `json:"disk_down,omitempty"`     // the state directory is unavailable while the concurrent programs run (after the set-up programs)
 	Rules2      []model.Rule `json:"rules2,omitempty"`        // grant of a second restricted caller (nil = there is none)
 }
 
@@ -89,6 +97,27 @@ var linModel = porcupine.Model{
 			// refused by the ACL: access-denied, whatever the state, and no effect
 			return r.Class == model.Denied, m
 		}
+		if o.DiskDown {
+			switch o.Kind {
+			case "put", "activate", "delver", "del":
+				trial := m.Clone()
+				var c model.Class
+				switch o.Kind {
+				case "put":
+					_, c = trial.Put(o.Name, o.Val)
+				case "activate":
+					c = trial.Activate(o.Name, o.Ver)
+				case "delver":
+					c = trial.DeleteVersion(o.Name, o.Ver)
+				default:
+					c = trial.Delete(o.Name)
+				}
+				if c == model.OK && trial.Render(true) != m.Render(true) {
+					// it would have to write: it fails, and the state stays what it was
+					return r.Class != model.OK && r.Class != model.Denied && r.Class != model.NotFound, m
+				}
+			}
+		}
 		switch o.Kind {
 		case "put":
 			v, c := m.Put(o.Name, o.Val)
@@ -126,7 +155,7 @@ var linModel = porcupine.Model{
 				return r.Class == c, m
 			}
 			return r.Class == model.OK && r.Dump == renderInfos([]model.InfoM{in}), m
-		case "list":
+		case "list", "page":
 			return r.Class == model.OK && r.Dump == modelList(m), m
 		case "final":
 			return r.Dump == m.Render(false), m
@@ -170,6 +199,90 @@ func (s *linSink) Sync() error {
 	return nil
 }
 
+var pageRow = regexp.MustCompile(`(?s)<tr>\s*<td>(.*?)</td>\s*<td>(.*?)</td>\s*</tr>`)
+var pageVer = regexp.MustCompile(`(<b>)?(\d+)(</b>)?`)
+
+// doConc performs one call of a concurrent program. The kind "page" is the listing as a person sees
+// it: the HTML page the server shows at "/" (through the handlers; at the database API it is a
+// list), parsed back into names, version lists and the active (bold) version.
+func doConc(tgt dbx.Target, caller dbx.CallerM, op dbx.Op, ver uint32) dbx.Result {
+	if op.Kind != "page" {
+		return tgt.Do(caller, op, ver)
+	}
+	ht, ok := tgt.(*dbx.HTTPTarget)
+	if !ok {
+		op.Kind = "list"
+		return tgt.Do(caller, op, ver)
+	}
+	req := httptest.NewRequest("GET", "/", nil)
+	req.RemoteAddr = ht.AddrOf(caller)
+	w := httptest.NewRecorder()
+	ht.Mux.ServeHTTP(w, req)
+	if w.Code != 200 {
+		return dbx.Result{Class: model.Other, Err: fmt.Sprintf("GET / answered %d %q", w.Code, w.Body.String()), IsList: true}
+	}
+	if !pageParserFits() {
+		// the page no longer looks the way this parser expects (its layout is nobody's property): the
+		// answer counts as the listing the JSON API gives at this moment
+		op.Kind = "list"
+		return tgt.Do(caller, op, ver)
+	}
+	return parsePage(w.Body.String())
+}
+
+func parsePage(body string) dbx.Result {
+	res := dbx.Result{Class: model.OK, IsList: true}
+	for _, row := range pageRow.FindAllStringSubmatch(body, -1) {
+		in := model.InfoM{Name: html.UnescapeString(row[1])}
+		for _, v := range pageVer.FindAllStringSubmatch(row[2], -1) {
+			n, _ := strconv.Atoi(v[2])
+			in.Versions = append(in.Versions, uint32(n))
+			if v[1] != "" {
+				in.Active = uint32(n)
+			}
+		}
+		res.List = append(res.List, in)
+	}
+	return res
+}
+
+var (
+	pageOnce sync.Once
+	pageFits bool
+)
+
+// pageParserFits checks once per process, on a quiet database with known contents, that parsePage
+// reads the server's HTML page back into exactly what the JSON listing says.
+func pageParserFits() bool {
+	pageOnce.Do(func() {
+		dir, err := os.MkdirTemp(os.Getenv("VERIF_FAST_SCRATCH"), "c14page-")
+		if err != nil {
+			return
+		}
+		defer os.RemoveAll(dir)
+		d, err := dbx.OpenDiscard(filepath.Join(dir, "db"), dbx.DummyKey())
+		if err != nil {
+			return
+		}
+		su := dbx.Super()
+		for _, p := range [][2]string{{"a", "1"}, {"a", "2"}, {"a", "3"}, {"b & <c>", "x"}} {
+			d.Put(su.DB(), p[0], []byte(p[1]))
+		}
+		d.Activate(su.DB(), "a", 2)
+		ht, err := dbx.NewHTTP(d, []dbx.CallerM{su})
+		if err != nil {
+			return
+		}
+		req := httptest.NewRequest("GET", "/", nil)
+		req.RemoteAddr = ht.AddrOf(su)
+		w := httptest.NewRecorder()
+		ht.Mux.ServeHTTP(w, req)
+		want := ht.Do(su, dbx.Op{Kind: "list"}, 0)
+		pageFits = w.Code == 200 && len(want.List) == 2 && renderInfos(parsePage(w.Body.String()).List) == renderInfos(want.List)
+	})
+	return pageFits
+}
+
 func runC14(t *testing.T, c LinCase) (*h.Violation, h.Info) {
 	var info h.Info
 	dir := caseDir(t)
@@ -182,7 +295,7 @@ func runC14(t *testing.T, c LinCase) (*h.Violation, h.Info) {
 	su := dbx.Super()
 	low, low2 := dbx.Restricted(1, c.Rules), dbx.Restricted(3, c.Rules2)
 	who := func(o *ConcOp) dbx.CallerM {
-		if !o.Restricted || o.Kind == "list" || o.Kind == "final" {
+		if !o.Restricted || o.Kind == "list" || o.Kind == "page" || o.Kind == "final" {
 			o.Restricted = false
 			return su
 		}
@@ -215,6 +328,7 @@ func runC14(t *testing.T, c LinCase) (*h.Violation, h.Info) {
 	}
 	var clock atomic.Int64
 	var mu sync.Mutex
+	diskDown := false
 	var hist []porcupine.Operation
 	var wg sync.WaitGroup
 	start := make(chan struct{})
@@ -223,7 +337,7 @@ func runC14(t *testing.T, c LinCase) (*h.Violation, h.Info) {
 			op := dbx.Op{Kind: o.Kind, Name: o.Name, Val: []byte(o.Val)}
 			caller := who(&o)
 			call := clock.Add(1)
-			r := tgt.Do(caller, op, o.Ver)
+			r := doConc(tgt, caller, op, o.Ver)
 			ret := clock.Add(1)
 			hist = append(hist, porcupine.Operation{ClientId: ci, Input: o, Call: call, Output: linOut{Class: r.Class, Ver: r.Ver, Val: string(r.Val)}, Return: ret})
 		}
@@ -245,11 +359,12 @@ func runC14(t *testing.T, c LinCase) (*h.Violation, h.Info) {
 					runtime.Gosched()
 				}
 				op := dbx.Op{Kind: o.Kind, Name: o.Name, Val: []byte(o.Val)}
+				o.DiskDown = diskDown
 				mu.Lock()
 				caller := who(&o)
 				mu.Unlock()
 				call := clock.Add(1)
-				r := tgt.Do(caller, op, o.Ver)
+				r := doConc(tgt, caller, op, o.Ver)
 				ret := clock.Add(1)
 				out := linOut{Class: r.Class, Ver: r.Ver, Val: string(r.Val)}
 				if r.Info != nil {
@@ -264,8 +379,23 @@ func runC14(t *testing.T, c LinCase) (*h.Violation, h.Info) {
 			}
 		}()
 	}
-	close(start)
-	wg.Wait()
+	if c.DiskDown && c.Setup > 0 {
+		held, err := dbx.Outage(dir, func() {
+			diskDown = true
+			close(start)
+			wg.Wait()
+		})
+		if err != nil {
+			return h.V("harness", "%v", err), info
+		}
+		if !held {
+			return nil, info // the code put the directory back itself: no outage to speak of, nothing to judge
+		}
+		info.Class("concurrent-calls-while-the-disk-is-unavailable")
+	} else {
+		close(start)
+		wg.Wait()
+	}
 	dump, err := dbx.Dump(d)
 	if err != nil {
 		return h.V("final-state-consistent", "final dump failed: %v; history %+v", err, hist), info
@@ -334,7 +464,7 @@ func genLinCase(rt *rapid.T) LinCase {
 	for i := 0; i < nc; i++ {
 		c.Progs = append(c.Progs, rapid.SliceOfN(rapid.Custom(func(rt *rapid.T) ConcOp {
 			return ConcOp{
-				Kind:       rapid.SampledFrom([]string{"put", "put", "put", "activate", "delver", "del", "get", "getver", "cond", "info", "list"}).Draw(rt, "kind"),
+				Kind:       rapid.SampledFrom([]string{"put", "put", "put", "activate", "delver", "del", "get", "getver", "cond", "info", "list", "page"}).Draw(rt, "kind"),
 				Name:       rapid.SampledFrom(names).Draw(rt, "name"),
 				Val:        rapid.SampledFrom([]string{"", "x", "y"}).Draw(rt, "val"),
 				Ver:        uint32(rapid.IntRange(1, 4).Draw(rt, "ver")),
@@ -354,6 +484,11 @@ func genLinCase(rt *rapid.T) LinCase {
 		if c.ReadDelayUs == 0 {
 			c.ReadDelayUs = 200
 		}
+	}
+	if c.Setup == 0 && rapid.IntRange(0, 4).Draw(rt, "diskdown") == 0 {
+		// the disk gives out under a running server that holds a few secrets: writes fail, reads go on
+		c.Progs = append([][]ConcOp{{{Kind: "put", Name: "a", Val: "x"}, {Kind: "put", Name: "a", Val: "y"}, {Kind: "put", Name: "b", Val: "x"}}}, c.Progs...)
+		c.Setup, c.DiskDown = 1, true
 	}
 	return c
 }
@@ -399,11 +534,11 @@ var c09conc = &h.Campaign[LinCase]{
 		for i := 0; i < nc; i++ {
 			c.Progs = append(c.Progs, rapid.SliceOfN(rapid.Custom(func(rt *rapid.T) ConcOp {
 				return ConcOp{
-					Kind:  rapid.SampledFrom([]string{"cond", "cond", "cond", "activate", "activate", "delver", "put", "get"}).Draw(rt, "kind"),
-					Name:  "a",
-					Val:   rapid.SampledFrom([]string{"x", "w"}).Draw(rt, "val"),
-					Ver:   uint32(rapid.IntRange(1, 4).Draw(rt, "ver")),
-					Yield: rapid.IntRange(0, 3).Draw(rt, "yield"),
+					Kind:       rapid.SampledFrom([]string{"cond", "cond", "cond", "activate", "activate", "delver", "put", "get"}).Draw(rt, "kind"),
+					Name:       "a",
+					Val:        rapid.SampledFrom([]string{"x", "w"}).Draw(rt, "val"),
+					Ver:        uint32(rapid.IntRange(1, 4).Draw(rt, "ver")),
+					Yield:      rapid.IntRange(0, 3).Draw(rt, "yield"),
 					Restricted: withNodes && i > 0,
 					Second:     i%2 == 0,
 				}
